@@ -143,7 +143,7 @@ void XdlParser::parse(const char* s)
 		Context ctx = _context.top();
 		if(!_inComment)
 		{
-			if(c=='/' && _state != STRING && _state != ESCAPE)
+			if(c=='/' && _state != STRING && _state != QPROPERTY && _state != ESCAPE)
 			{
 				_inComment = true;
 				_context << COMMENT1;
